@@ -125,15 +125,18 @@ Qed.
 Lemma wf_r_copy s : wf s -> wf (r_copy s).
 Proof. intros H. unfold r_copy. destruct (kd s); try apply wf_rimm; apply wf_rclone, H. Qed.
 
-Lemma wf_r_to_rdataset s x : r_to_rdataset s = Ok x -> wf x.
+Lemma wf_r_from_list n t xs x : r_from_list n t xs = Ok x -> wf x.
 Proof.
-  unfold r_to_rdataset. destruct (items s) as [|rd0 l]; [discriminate|].
+  unfold r_from_list. destruct xs as [|rd0 l]; [discriminate|].
   set (r0 := update_ttl _ _).
-  assert (H : wf r0) by (apply wf_update_ttl, wf_empty).
+  assert (H : wf r0) by (apply wf_update_ttl; destruct n; apply wf_empty).
   pose proof (wf_radd_all (rd0 :: l) r0 H) as H1.
   destruct (radd_all r0 (rd0 :: l)) as [r [[]| |]]; try discriminate.
   intros E; inversion E; subst. exact H1.
 Qed.
+
+Lemma wf_r_to_rdataset s x : r_to_rdataset s = Ok x -> wf x.
+Proof. apply wf_r_from_list. Qed.
 
 Lemma spop_sub (s : list rdata) x s' : spop s = Ok (x, s') -> forall y, In y s' -> In y s.
 Proof. intros E y Hy. apply spop_snoc in E. subst. apply in_app_iff. auto. Qed.
@@ -158,6 +161,7 @@ Proof.
   - apply wf_empty.
   - apply wf_rimm. ndreg.
   - eapply wf_r_to_rdataset; eassumption.
+  - eapply wf_r_from_list; eassumption.
   - apply wf_radd. ndreg.
   - apply wf_radd. ndreg.
   - apply wf_update_ttl. ndreg.
@@ -195,4 +199,102 @@ Corollary rds_machine_inv ops r s :
   (is_singleton (typ s) = true -> (length (items s) <= 1)%nat).
 Proof.
   intros E. destruct (Forall_nth_error wf _ r s (rds_machine_wf ops) E) as [H1 H2 H3 H4]. auto.
+Qed.
+
+(* the Rdataset algebra at the level of the machine: in every reachable state, an in-place
+   method between two distinct mergeable non-singleton rdatasets succeeds, yields set theory's
+   members in first-insertion order and the minimised TTL *)
+Theorem rds_machine_inplace ops w a r o s os :
+  let st := rexec [] ops in
+  nth_error st r = Some s -> nth_error st o = Some os -> r <> o ->
+  kd s <> KImm -> inplace_alg w = Some a ->
+  mergeable s os -> is_singleton (typ s) = false ->
+  exists s', rstep st (RInpl w r o) = (set_nth st r s', N) /\
+    (forall x, rmem x (items s') = alg_bool a (rmem x (items s)) (rmem x (items os))) /\
+    items s' = alg_order rdata rd_eqb a (items s) (items os) /\
+    ttl s' = (match a with
+              | ADiff => ttl s
+              | _ => if isempty s then ttl os else Z.min (ttl s) (ttl os)
+              end).
+Proof.
+  cbv zeta. intros Es Eo Hne Hk Ea Hm Hns.
+  pose proof (rds_machine_wf ops) as Hwf.
+  assert (Hs : wf s) by (eapply Forall_nth_error; eassumption).
+  assert (Ho : wf os) by (eapply Forall_nth_error; eassumption).
+  destruct (ralg_mem a s os Hs Ho Hm Hns) as (s' & E & Hmem & Hord).
+  destruct (ralg_ok a s os Ho Hm Hns) as (s'' & E' & _ & Httl & _).
+  rewrite E in E'. inversion E'; subst s''.
+  exists s'. cbn [rstep]. rewrite Es, Eo. apply Nat.eqb_neq in Hne. rewrite Hne.
+  unfold upd, r_inplace. rewrite Ea.
+  destruct (kd s) eqn:Ek; [|congruence|]; rewrite E; cbn [fst snd obs_err]; auto.
+Qed.
+
+(* ---------- equality of rdatasets ---------- *)
+
+(* a == b: same class, type and covered type, the same member set whatever the insertion
+   orders (and whatever the TTLs); two RRsets also need equal owner names *)
+Theorem r_eq_spec a b :
+  wf a -> wf b ->
+  (r_eq a b = true <->
+   cls a = cls b /\ typ a = typ b /\ cov a = cov b /\
+   (kd a = KRR -> kd b = KRR -> name_eqb (oname a) (oname b) = true) /\
+   (forall x, rmem x (items a) = rmem x (items b))).
+Proof.
+  intros Ha Hb.
+  assert (Hbase : rds_base_eq a b = true <->
+            cls a = cls b /\ typ a = typ b /\ cov a = cov b /\
+            (forall x, rmem x (items a) = rmem x (items b))).
+  { unfold rds_base_eq.
+    destruct (cls a =? cls b) eqn:E1; cbn [negb orb].
+    2:{ apply Z.eqb_neq in E1. split; [discriminate|tauto]. }
+    destruct (typ a =? typ b) eqn:E2; cbn [negb orb].
+    2:{ apply Z.eqb_neq in E2. split; [discriminate|tauto]. }
+    destruct (cov a =? cov b) eqn:E3; cbn [negb orb].
+    2:{ apply Z.eqb_neq in E3. split; [discriminate|tauto]. }
+    apply Z.eqb_eq in E1, E2, E3.
+    rewrite (set_eq_ignores_order (items a) (items b) (wf_nd a Ha) (wf_nd b Hb)). tauto. }
+  unfold r_eq. destruct (kd a) eqn:Ka, (kd b) eqn:Kb;
+    try (rewrite Hbase; split; [intros (A&B&C&D); repeat split; auto; discriminate|tauto]).
+  destruct (name_eqb (oname a) (oname b)) eqn:En; cbn [negb].
+  - rewrite Hbase. split; [intros (A&B&C&D); repeat split; auto|tauto].
+  - split; [discriminate|]. intros (_&_&_&H&_). specialize (H eq_refl eq_refl). discriminate.
+Qed.
+
+Lemma SetTtl_set_nth_id {A} (st : list A) r x : nth_error st r = Some x -> set_nth st r x = st.
+Proof.
+  revert r. induction st as [|y l IH]; intros [|r]; cbn; try discriminate.
+  - intros E; inversion E; reflexivity.
+  - intros E. rewrite IH by exact E. reflexivity.
+Qed.
+
+(* ---------- ImmutableRdataset: every overridden mutator raises TypeError("immutable") ---------- *)
+
+Definition imm_blocked (op : rop) : bool :=
+  match op with
+  | RAdd _ _ _ | RUpdateTtl _ _ | RClear _ | RDelItem _ _ | RRemove _ _ => true
+  | RInpl w _ _ => match w with
+                   | IUnion | IInter | IUpdate | IOr | IAnd | IAdd | ISub => true
+                   | IDiff | ISym | IXor => false
+                   end
+  | _ => false
+  end.
+
+Definition op_self (op : rop) : option nat :=
+  match op with
+  | RAdd r _ _ | RUpdateTtl r _ | RClear r | RDelItem r _ | RRemove r _ | RInpl _ r _ => Some r
+  | _ => None
+  end.
+
+Theorem imm_mutators_raise st op r s :
+  nth_error st r = Some s -> kd s = KImm -> op_self op = Some r -> imm_blocked op = true ->
+  match op with RInpl _ _ o => nth_error st o <> None | _ => True end ->
+  rstep st op = (st, E eTypeError).
+Proof.
+  intros Hs Hk Hself Hb Ho.
+  destruct op; cbn in Hself, Hb; try discriminate; inversion Hself; subst;
+    cbn [rstep]; rewrite Hs, ?Hk; try reflexivity.
+  destruct (nth_error st o) as [os|] eqn:Eo; [|congruence].
+  unfold upd, r_inplace. rewrite Hk. cbn [fst snd].
+  rewrite (SetTtl_set_nth_id st r s Hs).
+  destruct w; cbn in Hb; try discriminate; reflexivity.
 Qed.
